@@ -578,11 +578,21 @@ class t2listing(object):
             self.skip_to_nonblank()
             tname = 'element'
             nelt_tables = 0
-        else: tname = last_tablename
+        else:
+            tname = last_tablename
+            # number of element tables already passed (not tracked by the caller
+            # when it skips over intermediate tables):
+            ilast = self._tablenames.index(last_tablename)
+            nelt_tables = len([t for t in self._tablenames[:ilast + 1]
+                               if t.startswith('element')]) - 1
+        in_rows = last_tablename is not None
         while tname != tablename:
             if tname == 'primary': keyword='_____'
             else: keyword = '@@@@@'
-            self.skipto(keyword,0)
+            # (within the rows of the primary table, the rule that ends it is
+            # also the top of the next table's header, found by next_table)
+            if not (in_rows and tname == 'primary'): self.skipto(keyword,0)
+            in_rows = False
             tname = self.next_table_TOUGHplus()
             if tname == 'element':
                 nelt_tables += 1
